@@ -41,6 +41,25 @@ def main(tier: str, seed: int) -> int:
     hs = [(seed + i) % 4096 for i in range(8)]
     chk.extra["hashseeds"] = hs
     lcheck.run(chk, cases, ASPECTS, hashseeds=hs)
+    # a subset through the real command line (separate processes, three input modes)
+    import random
+    rng = random.Random(f"c01-cli-{seed}")
+    pool = [c for c in cases if c["stratum"] == "S1" and c["kind"] in ("corpus", "core-exh",
+                                                                       "core-rand")
+            and 2 <= len(c["jobs"]) <= 12 and c.get("variant") == "base"]
+    rng.shuffle(pool)
+    ncli = 12 if tier == "quick" else 90
+    wd = core.work_dir()
+    # (one file per event cannot express "the same job supplied twice": the copies would be
+    # merged into one job with every event doubled - that mode gets fresh ids/order only)
+    cli_cases = [dict(c, mode=("folder", "files", "group-by-job")[i % 3], work_dir=wd,
+                      variant="all" if i % 3 != 2 else "fresh-ids", _wall_limit=900,
+                      puml_name=("wf " + c["name"]) if i % 4 == 0 else c["name"])
+                 for i, c in enumerate(pool[:ncli])]
+    lcheck.run(chk, cli_cases, ASPECTS, hashseeds=hs, label="command_line_subset",
+               worker=("vlib.present", "run_cli_learn_case"))
+    if not chk.extra.get("command_line_subset", {}).get("jobs_matched"):
+        chk.note_inconclusive("no job set went through the command line")
     if chk.extra.get("jobs_matched", 0) == 0:
         chk.note_inconclusive("matcher accepted no job at all - oracle or learner not reached")
     for k in ("walk", "gates", "detect_loops"):
